@@ -3,7 +3,7 @@
    All statements quantify over EVERY reachable state of the life-cycle LTS Srv/Conc.v: any number of requests,
    any interleaving of the receive, worker, responder and send steps, any behaviour of the implementation. *)
 From Coq Require Import NArith List Bool PeanoNat.
-From V9 Require Shape.ShapeLib Shape.PBuf Shape.POrder.
+From V9 Require Shape.ShapeLib Shape.PBuf Shape.POrder Shape.PFlush.
 From V9 Require Race.Facts Shape.PLocks.
 From V9 Require Srv.Buf Srv.BufProofs.
 From V9 Require Import Lib.GoSem Gen.Consts Srv.Conc Srv.ConcProofs.
@@ -108,3 +108,8 @@ Print Assumptions C03_source_respond_order.
 Theorem C03_source_critical_sections : V9.Race.Facts.violations = [].
 Proof. exact V9.Shape.PLocks.sites_comply_ok. Qed.
 Print Assumptions C03_source_critical_sections.
+
+(* the Rflush is packed before the Tflush is chained onto its target (it is answered later by a bare Respond) *)
+Theorem C03_source_flush_packs_before_chaining : V9.Shape.ShapeLib.flush_chains_under_conn_lock = true.
+Proof. exact V9.Shape.PFlush.flush_chains_under_conn_lock_ok. Qed.
+Print Assumptions C03_source_flush_packs_before_chaining.
